@@ -15,7 +15,7 @@ from ..model import dims as M
 from ..model import dtypes as DT
 
 LEVEL = "exploration"
-TECHNIQUE = "runtime monitoring: both sides of each documented law are built and their acceptance vectors (isinstance verdict + bindings over a probe set of NumPy/JAX arrays, keys, scalars, duck objects) compared; construction errors compared with the stated conditions; category intersection computed by the independent dtype oracle; absolute 'any array-like' law (TensorFlow, list / sequence / tuple-subclass shapes); PRNGKeyArray in fresh processes under every PRNG implementation"
+TECHNIQUE = "runtime monitoring: both sides of each documented law are built and their acceptance vectors (isinstance verdict + bindings over a probe set of NumPy/JAX arrays, keys, scalars, duck objects) compared; construction errors compared with the stated conditions; category intersection computed by the independent dtype oracle; absolute 'any array-like' law (TensorFlow, list / sequence / tuple-subclass shapes); PRNGKeyArray in fresh processes under every PRNG implementation; user categories defined by a regular expression nested with string categories; parameterised generic array types (NDArray[...], Generic[T] classes) directly, in unions and as TypeVar bounds / constraints"
 LEVEL_TEXT = (
     "Thorough tier enumerates all 34x34 category pairs x 8x8 dim-string pairs for the nesting law (exhaustive for these "
     "lists); quick tier takes a seeded sample of them. Union/TypeVar/scalar/alias laws are enumerated over all categories in both tiers."
